@@ -36,6 +36,7 @@ type GenCfg struct {
 	Coercers         bool // z.WithCoercer on some primitives
 	EmptyTags        bool // tag values may be the empty string (C06 only)
 	Widths           bool // Int64 / Float32 schemas (int64 / float32 destinations)
+	RawStrings       bool // strings that are not valid UTF-8 (only where the record stays a Go value: no JSON text, no form)
 	BigInts          bool // int64 values beyond 2^53 (only where every front end in play carries integers exactly)
 }
 
@@ -112,7 +113,9 @@ func (c *GenCfg) without(ks ...string) {
 // ---------------------------------------------------------------------------
 // Value domains (small on purpose: collisions with test parameters are wanted)
 
-var strDomain = []string{"a", "ab", "abc", "abcd", "hello", "Hello1", "x!", "zzz", "abcdefgh", "Q", "7up", "a b", "12", "true", "é", "ab#", "pa$$w0rd", "$HOME", "a${b}c", "50%"}
+var rawStrings = []string{"caf\xe9", "\xff\xfeab", "ab\xc3", "a\x80b\x80c", "\xe9\xe8\xe7\xe6\xe5"}
+
+var strDomain = []string{"a", "ab", "abc", "abcd", "hello", "Hello1", "x!", "zzz", "abcdefgh", "Q", "7up", "a b", "12", "true", "é", "ab#", "pa$$w0rd", "$HOME", "a${b}c", "50%", "red,green", "a, b"}
 var timeBase = "2024-01-10T00:00:00Z"
 
 func dayTime(k int) string {
@@ -315,6 +318,15 @@ func GenNode(r *Rng, c *GenCfg, depth int, root bool) *Node {
 
 // DeepChain builds a narrow schema whose paths have `segments` segments or more
 // (structs in slices in structs ...), with 1-2 failing-prone leaves per level.
+// DeepSegments draws a path length: mostly just beyond a cold path builder's five segments, sometimes beyond
+// its first and second growth steps (10, 20).
+func DeepSegments(r *Rng) int {
+	if r.P(0.3) {
+		return 11 + r.Intn(4)
+	}
+	return 5 + r.Intn(3)
+}
+
 func DeepChain(r *Rng, c *GenCfg, segments int) *Node {
 	leaf := func() *Node {
 		k := Pick(r, []string{"string", "int", "bool"})
@@ -349,7 +361,7 @@ func DeepChain(r *Rng, c *GenCfg, segments int) *Node {
 			if r.P(0.5) {
 				add(leaf())
 			}
-			if r.P(0.3) && left > 1 {
+			if r.P(0.3) && left > 1 && left <= 7 {
 				add(build(left - 1))
 			}
 		}
@@ -489,6 +501,10 @@ func GenParseInput(r *Rng, c *GenCfg, n *Node) (v Val, missing bool) {
 			tv = genSatisfying(r, n)
 		} else {
 			tv = genTyped(r, n.Kind)
+		}
+		if c.RawStrings && n.Kind == "string" && r.P(0.05) {
+			// a Go string is bytes: latin-1 text, a truncated sequence, a BOM-like prefix come through unchanged
+			return VS(Pick(r, rawStrings)), false
 		}
 		if c.BigInts && n.Kind == "int" && n.W == "64" && r.P(0.15) {
 			// not representable as a float64: an int64 must come through unchanged
@@ -691,6 +707,9 @@ func GenValidateInput(r *Rng, c *GenCfg, n *Node, full bool) Val {
 		}
 		if full && validateAbsent(n, MIn{V: v}) {
 			v = nonZeroTyped(r, n.Kind)
+		}
+		if c.RawStrings && n.Kind == "string" && r.P(0.05) {
+			v = VS(Pick(r, rawStrings))
 		}
 		if c.BigInts && n.Kind == "int" && n.W == "64" && r.P(0.15) {
 			v = VI(Pick(r, []int64{9007199254740993, -9007199254740993, 9223372036854775807, 1152921504606846977}))
